@@ -122,7 +122,13 @@ CLAIMS['C16'] = ('exploration', BND + 'The body of get_components builds a Pytho
                  'statement, DESIGN 5/C16). Only the rejection clause is discharged deductively on every run (prefix contract: execution passes the symmetry check only if A[x,y] = A[y,x] for all cells, every other '
                  'path raises BCTParamError; argument untouched). Bounded: ALL labelled undirected graphs n<=5 (quick) / n<=6 (thorough) incl. non-zero diagonals, weights, forests, late-merge edge orders; own union-find oracle; '
                  'agreement with distance_bin, breadthdist, reachdist.', BND_NOTE % 'C16', 'bounded exhaustive enumeration with an independent union-find; pyvc prefix contract for the rejection clause', '5/C16')
-for _pid in ['C03', 'C08', 'C16', 'C18', 'C19', 'C20']:
+CLAIMS['C03'] = ('exploration', 'Partly deductive: distance_bin is proved for ALL graphs (pyvc+z3, 39 obligations): loop invariant of the algebraic-shortest-paths loop (support of nPATH = walks of exactly n connections, via the support '
+                 'contract of np.dot on non-negative matrices; found entries hold the shortest-walk length; open entries have no walk shorter than n) and, at exit, by the walk-decomposition lemmas, every open pair has no walk at all: '
+                 'the result is the shortest-walk (= shortest-path) length, INF exactly when unreachable, 0 on the diagonal. Everything else the property names (distance_wei Dijkstra, distance_wei_floyd, breadthdist, reachdist, edge-count '
+                 'outputs, agreement of the five routines, charpath / efficiency_* / rout_efficiency means) is BOUNDED only: independent min-plus closure / BFS oracle on all digraphs n<=3/4, graphs n<=5/6, tie palettes, transforms. Level is '
+                 'exploration because 4 of the 5 distance routines are bounded.', BND_NOTE % 'C03' + ' Proved part: ' + PROOF_NOTE + ' Walk lemmas (incl. the pigeonhole bound sdist <= n-1) and INF > n are assumed.',
+                 'pyvc + z3 + walk lemmas for distance_bin; exhaustive small-scope comparison with an independent min-plus/BFS oracle (bounded) for the rest', '5/C03')
+for _pid in ['C08', 'C16', 'C18', 'C19', 'C20']:
     CLAIMS[_pid] = ('exploration', BND + 'See DESIGN.md section 5/%s for the clauses and why the deductive tier does not (yet) reach them.' % _pid,
                     BND_NOTE % _pid, 'runtime contracts on the real code over exhaustive small scopes (bounded stand-in)', '5/' + _pid)
 NOT_YET = 'check not built yet in this round (see DESIGN.md section 10); no claim is made'
